@@ -20,32 +20,26 @@ import threading
 import vlib
 
 JUDGE, JUDGE_CFG = "AnnotateJudge", "AnnotateJudge.cfg"
-KF_NAME = "KF_SameSecondOrder"
-KF_WHAT = ("update.go SortByIndex compares (index, time) only and uses an unstable sort: updates of one position that "
-           "share a timestamp come out newest-first / in an order that differs between runs")
+# KF_SameSecondOrder (AnnotateJudge.tla) is recorded as `fixed` (76b44d7) in known_findings.json: a match is a VIOLATION again
 
 # ------------------------------------------------------------------------------------------
 # tier tables: (module cfg, workers share)
 # ------------------------------------------------------------------------------------------
-MC_QUICK = ["Annotate_mc_commit_q.cfg", "Annotate_mc_stamp_q.cfg"]
+MC_QUICK = ["Annotate_mc_commit_q.cfg", "Annotate_mc_stamp_q.cfg", "Annotate_mc_mixed_q.cfg"]
 MC_THOROUGH = ["Annotate_mc_commit_t.cfg", "Annotate_mc_commit22_t.cfg", "Annotate_mc_commit3_t.cfg", "Annotate_mc_stamp_t.cfg",
-               "Annotate_mc_stamp2_t.cfg", "Annotate_mc_filter_t.cfg", "Annotate_mc_commit_q.cfg", "Annotate_mc_live_t.cfg"]
+               "Annotate_mc_stamp2_t.cfg", "Annotate_mc_filter_t.cfg", "Annotate_mc_mixed_t.cfg", "Annotate_mc_mixed2_t.cfg",
+               "Annotate_mc_commit_q.cfg", "Annotate_mc_live_t.cfg"]
 # (generation cfg, option records per history: None = all)
-GEN_QUICK = [("OsmHistory_gen_commit_q.cfg", 2), ("OsmHistory_gen_stamp_q.cfg", 3), ("OsmHistory_gen_filter_q.cfg", 3),
-             ("OsmHistory_gen_any_q.cfg", 1)]
+GEN_QUICK = [("OsmHistory_gen_commit_q.cfg", 1), ("OsmHistory_gen_stamp_q.cfg", 3), ("OsmHistory_gen_filter_q.cfg", 3),
+             ("OsmHistory_gen_any_q.cfg", 1), ("OsmHistory_gen_mixed_q.cfg", 1)]
 GEN_THOROUGH = [("OsmHistory_gen_commit_t.cfg", 1), ("OsmHistory_gen_commit3_t.cfg", 1), ("OsmHistory_gen_stamp_t.cfg", 3),
-                ("OsmHistory_gen_stamp2_t.cfg", 2), ("OsmHistory_gen_filter_t.cfg", 6), ("OsmHistory_gen_any_t.cfg", 2)]
-
-
-def ensure_known(ctx):
-    """known_findings.json is owned by the coordinator.  Until it carries an entry (known or fixed) for this
-    property's KF predicate, fall back to the entry proposed in notes/<ID>.md so that the genuine defect
-    DESIGN 4 #8 is reported as KNOWN-FINDING and not as a fresh violation."""
-    allk = [k for k in vlib.load_known() if k.get("property") == ctx.prop and k.get("kf") == KF_NAME]
-    if not allk:
-        # VERIF_KF_STATUS=fixed: self-test of mutants built on top of fixes/C12-sortbyindex-version.diff
-        status = os.environ.get("VERIF_KF_STATUS", "known")
-        ctx.known.append({"property": ctx.prop, "kf": KF_NAME, "status": status, "commit": "pinned", "what": KF_WHAT})
+                ("OsmHistory_gen_stamp2_t.cfg", 2), ("OsmHistory_gen_filter_t.cfg", 6), ("OsmHistory_gen_any_t.cfg", 2),
+                ("OsmHistory_gen_mixed_t.cfg", 4)]
+# option records for OsmHistoryFamily (busy early parent versions, equal timestamps)
+FAM_OPTS = [{"regime": "commit", "cut": 0, "eps": 0, "igI": False, "igM": False, "filt": 0},
+            {"regime": "stamp", "cut": 0, "eps": 0, "igI": False, "igM": False, "filt": 0},
+            {"regime": "stamp", "cut": 0, "eps": 1, "igI": True, "igM": True, "filt": 0},
+            {"regime": "mixed", "cut": 3, "eps": 1, "igI": False, "igM": False, "filt": 0}]
 
 
 # ------------------------------------------------------------------------------------------
@@ -79,7 +73,8 @@ def layout(rng, h, o, runs, kind=None):
                vstep=rng.choice([1, 2, 5]), voff=rng.choice([0, 3]),
                idbase=str(rng.choice([0, 1000, 2 ** 31, 2 ** 39])), csbase=str(rng.choice([0, 5000, 2 ** 33])),
                shuffle=rng.randrange(1 << 30), runs=runs, optall=rng.random() < 0.5,
-               sameid=(kind == "rel" and len(set(kt)) == nk and rng.random() < 0.5))
+               sameid=(kind == "rel" and len(set(kt)) == nk and rng.random() < 0.5),
+               late=(o["regime"] == "stamp" and rng.random() < 0.5))
     return kt, lay
 
 
@@ -207,7 +202,6 @@ def in_background(fn):
 # C11
 # ------------------------------------------------------------------------------------------
 def run(ctx):
-    ensure_known(ctx)
     prepare(ctx)
     quick = ctx.quick()
     binpath = vlib.go_build("c11")
@@ -222,7 +216,15 @@ def run(ctx):
             vlib.log("  %s: %d histories, %d option records -> %d cases" % (cfg, len(hs), len(opts), len(cases)))
             total += len(cases)
             run_and_judge(ctx, binpath, cases, "c11")
-        rc = random_cases(ctx, binpath, 300 if quick else 3000, runs=1)
+        fam = vlib.tlc_gen(ctx, "OsmHistoryFamily", "OsmHistoryFamily_q.cfg" if quick else "OsmHistoryFamily_t.cfg")
+        # C11's input assumption: child times never decrease in version order (the family's reversed-time
+        # members are for C12's Sorted only; CurrentAt is not defined on them)
+        fam = [h for h in fam if all(a["t"] <= b["t"] for k in h["kids"] for a, b in zip(k, k[1:]))]
+        cases = make_cases(ctx, fam, FAM_OPTS, runs=1, per_history=2, salt=77)
+        vlib.log("  family: %d histories -> %d cases" % (len(fam), len(cases)))
+        total += len(cases)
+        run_and_judge(ctx, binpath, cases, "c11")
+        rc = random_cases(ctx, binpath, 400 if quick else 4000, runs=1)
         run_and_judge(ctx, binpath, rc, "c11")
     finally:
         join()
@@ -237,7 +239,7 @@ def run(ctx):
                 "+ seeded random larger histories; distinct = distinct (history, options, element kind, member types); "
                 "non-trivial = the run produced at least one update or a typed error")
     ctx.assumptions = [
-        "time is abstract (ticks); one regime per case: every element has a commit time on/after CommitInfoStart, or none has and all timestamps are before it (mixed histories not enumerated)",
+        "time is abstract (ticks); regimes: every element has a commit time on/after CommitInfoStart | none has (timestamps before it, or - layout `late` - after it) | mixed: versions from abstract time `cut` (= CommitInfoStart) on carry commit times, earlier ones do not",
         "CurrentAt(child, t) = last version with time <= t (a child version committed in the same second as the parent counts as current)",
         "without commit times the Judges bind RefsOK/TimeTravel only outside the +-threshold window; inside, the result is compared with the transcription only (DIVERGENCE, never VIOLATION)",
         "child versions of the datasource have non-decreasing times in version order; way members carry no nodes (no orientation logic)",
@@ -249,7 +251,6 @@ def replay(ctx, rp):
 
 
 def replay_mode(ctx, rp, mode):
-    ensure_known(ctx)
     binpath = vlib.go_build("c11")
     recs = execute(binpath, [rp["case"]])
     bad = judge(ctx, recs, mode, shards=1)
